@@ -152,6 +152,26 @@ func Core() []*Schema {
 			F("bykey", M("string", N("Style"))), F("tail", P("uint32"))),
 		Msg("SheetM", MF(1, "styles", A(N("Style"))), MF(2, "looks", A(N("Look"))), MF(3, "spans", M("uint16", N("Span"))))))
 
+	// 8a-w. structs that hold NOTHING BUT structs, several levels above the first scalar,
+	// as array elements and map values; once declared bottom-up, once top-down (forward
+	// references), once with the holder in the middle
+	{
+		leaf := func(p string) *Def { return St(p+"Point", F("x", P("int32")), F("y", P("int32"))) }
+		box := func(p string) *Def { return St(p+"Box", F("min", N(p+"Point")), F("max", N(p+"Point"))) }
+		region := func(p string) *Def { return St(p+"Region", F("bounds", N(p+"Box"))) }
+		zone := func(p string) *Def { return St(p+"Zone", F("a", N(p+"Region")), F("b", N(p+"Box"))) }
+		hold := func(p string) *Def {
+			return St(p+"Atlas", F("zones", A(N(p+"Zone"))), F("regions", A(N(p+"Region"))), F("boxes", A2(N(p+"Box"))), F("byname", M("string", N(p+"Region"))), F("tail", P("uint32")))
+		}
+		holdm := func(p string) *Def {
+			return Msg(p+"AtlasM", MF(1, "zones", A(N(p+"Zone"))), MF(2, "regions", A(N(p+"Region"))), MF(3, "tail", P("uint32")))
+		}
+		out = append(out, mk("wrappers",
+			leaf("Up"), box("Up"), region("Up"), zone("Up"), hold("Up"), holdm("Up"),
+			holdm("Dn"), hold("Dn"), zone("Dn"), region("Dn"), box("Dn"), leaf("Dn"),
+			region("Mx"), leaf("Mx"), hold("Mx"), zone("Mx"), holdm("Mx"), box("Mx")))
+	}
+
 	// 8a''. a union without members (the parser accepts it) as field, element and message
 	// field: no value of these types exists, their decoders do
 	out = append(out, mk("nomembers",
